@@ -96,7 +96,7 @@ def to_fixed(text, rng, limit=True):
                 ln = lab.ljust(6) + piece
                 first = False
             else:
-                ln = "     " + rng.choice("&1$+x*") + rng.choice(["", " ", "  "]) + piece
+                ln = "     " + rng.choice("&1$+x*!9.#") + rng.choice(["", " ", "  "]) + piece
             last = idx == len(pieces) - 1
             if last and doc:
                 ln += " " + doc
@@ -172,7 +172,8 @@ def pair_case(args):
     fixed = to_fixed(text, rng, limit)
     try:
         a = fordrun.project({"prog.f90": text})
-        b = fordrun.project({"prog.f": fixed}, fixed_length_limit=limit)
+        ext = (".f", ".for", ".F", ".FOR")[seed % 4]          # every extension that means fixed form by default
+        b = fordrun.project({"prog" + ext: fixed}, fixed_length_limit=limit)
         ta, tb = tree.project_tree(a), tree.project_tree(b)
         for t in (ta, tb):
             for f in t["files"]:
